@@ -152,6 +152,8 @@ func adversarialNames(r *Rand, n int, reserved []string) []string {
 		{"_draw_line_fast", "_draw_line", "w_line_fast", "aw_line_fa", "_draw_line_faster", "draw_line_"},
 		// words that mean something to the machinery a name passes through (text/template actions and functions, Go method names of
 		// the usual container types): to the assembler they are ordinary identifiers
+		// names that contain a register name or size keyword in the middle or at the end, end in digits, or are very short
+		{"my_eax_val", "line_max", "v_max2", "tax__rate", "sidx", "count_byte", "xword", "p_short", "_face", "tbl16", "v32", "q", "z9", "max", "relax", "n_al", "t_cl_x", "lbx", "kdword"},
 		{"String", "Names", "Len", "Error", "Keys", "Get", "Value", "Map", "Index", "Format", "GoString"},
 		{"end", "if", "else", "range", "with", "define", "template", "block", "nil", "len", "index", "print", "printf", "html", "slice", "true", "false", "eq", "ne", "lt"},
 	}
@@ -204,6 +206,36 @@ func genC15(r *Rand, reserved []string, nvar int, coff bool) *VariantCase {
 		mode, org = 32, -1
 	}
 	p, _ := genLabelled(r, mode, org, genOpts{Equs: true, Jumps: true})
+	// labels inside memory operands and expressions (positions where the operand text is analysed again after the main parser)
+	var labsAll []string
+	for _, s := range p.Stmts {
+		if s.K == "label" {
+			labsAll = append(labsAll, s.Label)
+		}
+	}
+	if len(labsAll) > 0 && len(p.Stmts) > 1 {
+		rn := map[int][]string{16: {"CX", "DX", "BX", "SI"}, 32: {"ECX", "EDX", "EBX", "ESI"}}[mode]
+		forms := []string{"\tMOV %s,[%s]", "\tMOV [%s],%s", "\tCMP WORD [%s],0", "\tMOV CL,[%s]", "\tMOV [%s],DL"}
+		var extra []PStmt
+		for i := r.Range(1, 3); i > 0; i-- {
+			f := Pick(r, forms)
+			l := Pick(r, labsAll)
+			var t string
+			switch strings.Count(f, "%s") {
+			case 1:
+				t = fmt.Sprintf(f, l)
+			default:
+				if strings.HasPrefix(f, "\tMOV [") {
+					t = fmt.Sprintf(f, l, Pick(r, rn))
+				} else {
+					t = fmt.Sprintf(f, Pick(r, rn), l)
+				}
+			}
+			extra = append(extra, PStmt{K: "raw", Text: t})
+		}
+		n := len(p.Stmts)
+		p.Stmts = append(p.Stmts[:n-1:n-1], append(extra, p.Stmts[n-1])...)
+	}
 	src := p.Source()
 	ids := identsOf(p)
 	c := &VariantCase{Prop: "C15", Coff: coff}
